@@ -185,7 +185,9 @@ class DefaultOptimizerStep(PlanStep):
         self._nested_optimization.set_parent(self.plan)
         results = self._nested_optimization.run_function(variables)
         if self._nested_optimization.aborted:
+            # The nested optimization may not have produced a result yet:
             self.plan.abort()
+            return None, True
         if not isinstance(results, FunctionResults):
             msg = "Nested optimization must return a FunctionResults object."
             raise TypeError(msg)
